@@ -391,6 +391,14 @@ def run(ctx):
                         'the flusher also executes operations from `%s`: operations kept aside are applied after later requests (request order broken) or twice' % norm(l.iter)))
     reorder = [n for n in ast.walk(flush.node) if isinstance(n, ast.Call) and isinstance(n.func, ast.Name) and n.func.id in ('reversed', 'sorted', 'set')]
     early = [n for n in walk_own(flush.node) if isinstance(n, ast.Return)]
+    # "nothing was pending" is a fine reason to stop: a return guarded only by the emptiness of the list that was swapped out
+    from . import common as _cm12e
+    harmless = []
+    for st_, conds in _cm12e.guards_of(flush.node, lambda x: isinstance(x, ast.Return)):
+        lits = [l for t_, p_ in conds for l in _cm12e.split_literals(t_, p_)]
+        if lits and all(isinstance(t_, ast.Name) and t_.id == swapped_local and p_ is False for t_, p_ in lits) and swap_ok:
+            harmless.append(st_)
+    early = [n for n in early if not any(n is h_ for h_ in harmless)]
     cd.instance('flusher never returns before the swap and never reorders', flush.qualname, not reorder and not early)
     for n in reorder + early:
         res.add(Finding('C12', 'C12.d', 'R-ORDER', flush.file, flush.qualname, n.lineno, norm(n),
